@@ -448,7 +448,8 @@ class BusSyncInst:
         self.sp_buf = own_multiregs(m)[0]
         self.netlist = CdcNetlist(m, clocks=("i", "o"))
         self.mask_order = [id(self.sp_ping), id(self.sp_pong), id(self.sp_buf)]
-        self.values = list(values) if values is not None else list(range(1 << width))
+        self.values = list(values) if values is not None else (
+            list(range(1 << width)) if width <= 4 else [0, (1 << width) - 1])
         self.qual = [None]
         self.alphabet = None
         self.ratio_max = ratio_max
